@@ -29,6 +29,10 @@ TStart == /\ IsEv("Start")
           /\ Ev.t \in 1..Len(prog) /\ status[Ev.t] = "pending"
           /\ PairData(Ev.reads) = {d \in Data : RdT(prog[Ev.t], d)}
           /\ \A d \in PairData(Ev.reads) : PairVal(Ev.reads, d) = SeqReads(prog, Ev.t)[d]
+          \* tiles several ints wide (two arena datatypes): "rt" = the value held by the first element of the tile that
+          \* disagrees with element 0 (the same value when the whole tile was transferred)
+          /\ ("rt" \in DOMAIN Ev) => /\ PairData(Ev.rt) = PairData(Ev.reads)
+                                     /\ \A d \in PairData(Ev.rt) : PairVal(Ev.rt, d) = SeqReads(prog, Ev.t)[d]
           /\ status' = [status EXCEPT ![Ev.t] = "running"]
           /\ UNCHANGED <<prog, val, reads, fl, own>>
 TEnd == /\ IsEv("End")
@@ -42,6 +46,9 @@ TWait == /\ IsEv("Wait") /\ AllDone /\ UNCHANGED vars
 TOwner == /\ IsEv("Owner") /\ AllDone
           /\ Ev.d \in fl /\ own[Ev.d] = -1
           /\ Ev.v = SeqVal(prog, Len(prog))[Ev.d]
+          \* "vs": the value held by every element of the owner's tile (tiles several ints wide)
+          /\ ("vs" \in DOMAIN Ev) => /\ Len(Ev.vs) >= 1
+                                     /\ \A i \in 1..Len(Ev.vs) : Ev.vs[i] = SeqVal(prog, Len(prog))[Ev.d]
           /\ own' = [own EXCEPT ![Ev.d] = Ev.v]
           /\ UNCHANGED <<prog, status, val, reads, fl>>
 TNext == TReset \/ TInsert \/ TStart \/ TEnd \/ TFlush \/ TWait \/ TOwner
